@@ -143,7 +143,13 @@ pub fn build(cfg: &ArcCfg, seed: u64, path: &Path) -> Result<Built, String> {
         specs.push(("(signature)".into(), "signature", vec![0u8; 72], 0, false));
         specs.push(("tail.txt".into(), "single", gen_content(&mut rng, "text", 3000), cfg.method, cfg.enc));
     } else {
-        let l1 = sector * 3 / 5 + rng.usize(40);
+        // the single-unit file: well inside one sector, one byte short of it, or exactly one sector long (the largest file that
+        // is still stored as one unit with one checksum; after C10-r3m3)
+        let l1 = match rng.usize(3) {
+            0 => sector * 3 / 5 + rng.usize(40),
+            1 => sector,
+            _ => sector - 1,
+        };
         let l3 = 2 * sector + sector / 5 + rng.usize(40);
         let l9 = 8 * sector + sector / 7 + rng.usize(40);
         // in every other unsigned configuration the user files carry names that merely *look* like special files
